@@ -1278,12 +1278,14 @@ spec fn mxInv(m *Mutex) bool = mxFlag(m) ==> mxHeld(m)
 func (*Mutex).Lock
   props C25
   requires m != nil && ghost(lockstate, &m.Native) == 0 && mxInv(m)
+  stepinv mxInv(m)
   ensures mxHeld(m) && mxFlag(m)
 
 // any state, any number of surplus unlocks: the documented error, never a fatal error
 func (*Mutex).Unlock
   props C25 C01
   requires m != nil && mxInv(m)
+  stepinv mxInv(m)
   ensures unheld: !old(mxFlag(m)) ==> isErr(err, MutexUnlockedErrorClass) && ghost(lockstate, &m.Native) == old(ghost(lockstate, &m.Native))
   ensures held: old(mxFlag(m)) ==> err == Undefined && ghost(lockstate, &m.Native) == 0
   ensures inv: !mxFlag(m) && mxInv(m)
@@ -1295,16 +1297,19 @@ spec fn rwInv(m *RWMutex) bool = (rwWriter(m) ==> ghost(lockstate, &m.Native) ==
 func (*RWMutex).Lock
   props C25
   requires m != nil && ghost(lockstate, &m.Native) == 0 && rwInv(m)
+  stepinv rwInv(m)
   ensures ghost(lockstate, &m.Native) == -1 && rwWriter(m) && rwInv(m)
 
 func (*RWMutex).ReadLock
   props C25
   requires m != nil && ghost(lockstate, &m.Native) >= 0 && rwInv(m) && rwReaders(m) < 4611686018427387904
+  stepinv rwInv(m)
   ensures ghost(lockstate, &m.Native) == old(ghost(lockstate, &m.Native)) + 1 && rwReaders(m) == old(rwReaders(m)) + 1 && rwInv(m)
 
 func (*RWMutex).Unlock
   props C25 C01
   requires m != nil && rwInv(m)
+  stepinv rwInv(m)
   ensures unheld: !old(rwWriter(m)) ==> isErr(err, RWMutexUnlockedErrorClass) && ghost(lockstate, &m.Native) == old(ghost(lockstate, &m.Native))
   ensures held: old(rwWriter(m)) ==> err == Undefined && ghost(lockstate, &m.Native) == 0
   ensures inv: !rwWriter(m) && rwInv(m)
@@ -1312,6 +1317,7 @@ func (*RWMutex).Unlock
 func (*RWMutex).ReadUnlock
   props C25 C01
   requires m != nil && rwInv(m)
+  stepinv rwInv(m)
   ensures unheld: old(rwReaders(m)) == 0 ==> isErr(err, RWMutexUnlockedErrorClass) && ghost(lockstate, &m.Native) == old(ghost(lockstate, &m.Native))
   ensures held: old(rwReaders(m)) > 0 ==> err == Undefined && ghost(lockstate, &m.Native) == old(ghost(lockstate, &m.Native)) - 1 && rwReaders(m) == old(rwReaders(m)) - 1
   ensures inv: rwInv(m)
@@ -1372,6 +1378,29 @@ func (*ChannelOfValue).NextValue
   requires ch != nil && ch.native != nil
   ensures head: old(chlen(ch.native)) > 0 ==> ret1 == Undefined && ret0 == old(chat(ch.native, 0)) && chlen(ch.native) == old(chlen(ch.native)) - 1
   ensures drained: old(chlen(ch.native)) == 0 && old(chclosed(ch.native)) ==> ret0 == Undefined && ret1 == stopIterationSymbol.ToValue()
+
+// the cancellable variants: either the operation happens as above, or the context's Done
+// channel fires first and the execution-aborted error is returned with the queue untouched
+func (*ChannelOfValue).PushCtx
+  props C25 C33 C01
+  requires ch != nil && ch.native != nil && ChannelClosedPushError != nil && ExecutionAbortedError != nil
+  ensures pushed: err == Undefined ==> !old(chclosed(ch.native)) && chlen(ch.native) == old(chlen(ch.native)) + 1 && chat(ch.native, old(chlen(ch.native))) == val
+  ensures order: err == Undefined ==> (forall k int :: 0 <= k && k < old(chlen(ch.native)) ==> chat(ch.native, k) == old(chat(ch.native, k)))
+  ensures refused: err != Undefined ==> (isRefTo(err, ExecutionAbortedError) || (old(chclosed(ch.native)) && isRefTo(err, ChannelClosedPushError))) && chlen(ch.native) == old(chlen(ch.native))
+  ensures closed: old(chclosed(ch.native)) ==> err != Undefined
+
+func (*ChannelOfValue).PopCtx
+  props C25 C33 C01
+  requires ch != nil && ch.native != nil && ChannelClosedPopError != nil && ExecutionAbortedError != nil
+  ensures head: err == Undefined && old(chlen(ch.native)) > 0 ==> result == old(chat(ch.native, 0)) && chlen(ch.native) == old(chlen(ch.native)) - 1
+  ensures refused: err != Undefined ==> result == Undefined && (isRefTo(err, ExecutionAbortedError) || (isRefTo(err, ChannelClosedPopError) && chclosed(ch.native) && old(chlen(ch.native)) == 0))
+  ensures aborted: isRefTo(err, ExecutionAbortedError) && ExecutionAbortedError != ChannelClosedPopError ==> chlen(ch.native) == old(chlen(ch.native))
+
+func (*ChannelOfValue).NextValueCtx
+  props C25 C33 C01
+  requires ch != nil && ch.native != nil && ExecutionAbortedError != nil
+  ensures head: ret1 == Undefined && old(chlen(ch.native)) > 0 ==> ret0 == old(chat(ch.native, 0)) && chlen(ch.native) == old(chlen(ch.native)) - 1
+  ensures refused: ret1 != Undefined ==> ret0 == Undefined && (isRefTo(ret1, ExecutionAbortedError) || (ret1 == stopIterationSymbol.ToValue() && chclosed(ch.native) && old(chlen(ch.native)) == 0))
 
 func (*ChannelOfValue).Close
   props C25 C01
